@@ -628,37 +628,44 @@ class Device(device.Device):
         def framing(brty):
             return {'A': 0b00, 'B': 0b11, 'F': 0b10}[brty[-1:]]
 
-        # Set bitrate and modulation type for send and receive.
-        acm = target.atr_res and not (target.sens_res or target.sensf_res)
-        reg = ("CIU_TxMode", "CIU_RxMode", "CIU_TxAuto")
-        txm, rxm, txa = self.chipset.read_register(*reg)
-        txm = (txm & 0b10001111) | (bitrate(target.brty_send) << 4)
-        rxm = (rxm & 0b10001111) | (bitrate(target.brty_recv) << 4)
-        txm = (txm & 0b11111100) | (0b01 if acm else framing(target.brty_send))
-        rxm = (rxm & 0b11111100) | (0b01 if acm else framing(target.brty_recv))
-        txa = (txa & 0b10111111) | (target.brty_send.endswith("A") << 6)
-        reg = (("CIU_TxMode", txm), ("CIU_RxMode", rxm), ("CIU_TxAuto", txa))
-        self.chipset.write_register(*reg)
-
-        # Calculate the timeout index for InCommunicateThru. The
-        # effective timeout is T(us) = 100 * 2**(n-1) for 1 <= n <= 16
-        # and "no timeout" for n = 0. For a given timeout we calculate
-        # the index as the first effective timeout that is longer.
-        timeout_microsec = int(timeout * 1E6)
+        # All cases where a response is not received, or the chipset
+        # reports an error while it is prepared for the exchange, raise
+        # either an IOError or one of the nfc.clf.CommunicationError
+        # specializations.
         try:
-            index = [i+1 for i in range(16) if timeout_microsec >> i <= 100][0]
-        except IndexError:
-            index = 16
-        timeout_microsec = 100 << (index-1)
-        timeout = (100 << (index-1)) / 1E6
-        self.log.log(logging.DEBUG-1, "set response timeout %.6f sec", timeout)
-        self.chipset.rf_configuration(0x02, bytearray([10, 11, index]))
+            # Set bitrate and modulation type for send and receive.
+            acm = target.atr_res and not (target.sens_res or target.sensf_res)
+            reg = ("CIU_TxMode", "CIU_RxMode", "CIU_TxAuto")
+            txm, rxm, txa = self.chipset.read_register(*reg)
+            txm = (txm & 0b10001111) | (bitrate(target.brty_send) << 4)
+            rxm = (rxm & 0b10001111) | (bitrate(target.brty_recv) << 4)
+            txm = (txm & 0b11111100) | (
+                0b01 if acm else framing(target.brty_send))
+            rxm = (rxm & 0b11111100) | (
+                0b01 if acm else framing(target.brty_recv))
+            txa = (txa & 0b10111111) | (target.brty_send.endswith("A") << 6)
+            reg = (("CIU_TxMode", txm), ("CIU_RxMode", rxm),
+                   ("CIU_TxAuto", txa))
+            self.chipset.write_register(*reg)
 
-        # Send the command data and return the response. All cases
-        # where a response is not received raise either an IOError
-        # or one of the nfc.clf.CommunicationError specializations.
-        data = bytearray(data) if not isinstance(data, bytearray) else data
-        try:
+            # Calculate the timeout index for InCommunicateThru. The
+            # effective timeout is T(us) = 100 * 2**(n-1) for 1 <= n <= 16
+            # and "no timeout" for n = 0. For a given timeout we calculate
+            # the index as the first effective timeout that is longer.
+            timeout_microsec = int(timeout * 1E6)
+            try:
+                index = [i+1 for i in range(16)
+                         if timeout_microsec >> i <= 100][0]
+            except IndexError:
+                index = 16
+            timeout_microsec = 100 << (index-1)
+            timeout = (100 << (index-1)) / 1E6
+            self.log.log(logging.DEBUG-1,
+                         "set response timeout %.6f sec", timeout)
+            self.chipset.rf_configuration(0x02, bytearray([10, 11, index]))
+
+            # Send the command data and return the response.
+            data = bytearray(data) if not isinstance(data, bytearray) else data
             if target.sens_res and not target.atr_res:
                 if target.rid_res:  # TT1
                     return self._tt1_send_cmd_recv_rsp(data, timeout+0.1)
